@@ -182,7 +182,8 @@ def run_cases(ctx, mod, cases):
                 signal.setitimer(signal.ITIMER_REAL, limit)
             mod.run(ctx, case)
         except CaseTimeout:
-            ctx.inconc("watchdog: a case did not finish within %.0f s (case kept in the evidence)" % limit)
+            path = write_replay(getattr(mod, "PROP", "C??"), {"clause": "watchdog.timeout", "case": case, "detail": {"limit_s": limit}}, None, None)
+            ctx.inconc("watchdog: a case did not finish within %.0f s (case kept in the evidence and in %s)" % (limit, path))
             ctx.sample({"timed_out_case": case}, limit=6)
         except Exception:
             tb = traceback.format_exc()
